@@ -9,8 +9,8 @@
     The caller side (which Cancel follows which failure in DoCache / DoMultiCache) belongs to the
     pipe-level model of another builder. *)
 From Coq Require Import List NArith ZArith Bool.
-Require Import RV.Model.Base RV.Model.Lru RV.Proofs.LruBase RV.Proofs.LruSteps RV.Proofs.LruAnswers
-               RV.Proofs.LruHist RV.Proofs.LruC09.
+Require Import RV.Model.Base RV.Model.Lru RV.Model.Adapter RV.Proofs.LruBase RV.Proofs.LruSteps RV.Proofs.LruAnswers
+               RV.Proofs.LruHist RV.Proofs.LruC09 RV.Proofs.AdapterProofs.
 Import ListNotations.
 Open Scope Z_scope.
 
@@ -119,6 +119,47 @@ Proof.
   - exact Hl.
 Qed.
 Print Assumptions C09_not_cached_after_cancel.
+
+(** ** NewSimpleCacheAdapter (cache.go), any history incl. its two critical sections and arbitrary
+    evictions of the underlying SimpleCache *)
+
+(** a Miss on an open adapter starts a flight ... *)
+Theorem C09_adapter_miss_starts_flight : forall ops k c ttl now,
+  let s := arun ops ainit in
+  aflights s <> None -> snd (astep s (AFlight k c ttl now)) = AOFlight empty_msg None ->
+  a_pending (fst (astep s (AFlight k c ttl now))) k c (mkAE (anext s) (unix_milli (now + ttl))).
+Proof. intros ops k c ttl now s. apply a_miss_starts_flight. Qed.
+Print Assumptions C09_adapter_miss_starts_flight.
+
+(** ... which stays until its own Update / Cancel or Close; meanwhile no lookup of the command is told to
+    send a request: it waits on that flight (or is served a live value of the SimpleCache) ... *)
+Theorem C09_adapter_single_flight : forall ops mid o k c ae a,
+  a_pending (arun ops ainit) k c ae ->
+  Forall (fun o' => ~ a_resolves k c o') mid ->
+  In a (a_answers k c o (snd (astep (arun (ops ++ mid) ainit) o))) ->
+  a = AWait (aid ae) \/ exists v, a = AHit v.
+Proof.
+  intros ops mid o k c ae a Hp Hr Ha.
+  assert (H : a_pending (arun (ops ++ mid) ainit) k c ae).
+  { clear Ha. revert ops Hp. induction mid as [|m mid IH]; intros ops Hp; [rewrite app_nil_r; exact Hp|].
+    inversion Hr; subst. replace (ops ++ m :: mid) with ((ops ++ [m]) ++ mid) by (rewrite <- app_assoc; reflexivity).
+    apply IH; [assumption|]. rewrite arun_snoc. apply a_flight_persists; [apply ainv_run|exact Hp|assumption]. }
+  eapply a_single_flight; eassumption.
+Qed.
+Print Assumptions C09_adapter_single_flight.
+
+(** ... and Update / Cancel / Close deliver the value resp. the error to its waiters; Cancel leaves the
+    SimpleCache untouched (nothing is cached for the failed request). *)
+Theorem C09_adapter_waiters_get_result : forall ops k c ae,
+  let s := arun ops ainit in
+  a_pending s k c ae ->
+  (forall v, exists px v', snd (astep s (AUpdate k c v)) = AOUpdate px (Some (Rel (aid ae) v')) /\
+                           (v' = v \/ v' = set_xat v (trunc56 (axat ae)))) /\
+  (forall err, snd (astep s (ACancel k c err)) = AOCancel (Some (aid ae)) /\
+               astore (fst (astep s (ACancel k c err))) = astore s) /\
+  (forall err, In (aid ae) (a_released (snd (astep s (AClose err))))).
+Proof. intros ops k c ae s. apply a_waiters_get_result. Qed.
+Print Assumptions C09_adapter_waiters_get_result.
 
 (** non-vacuity: a miss, two waiters (one through Flights), an unrelated update, then Update / Cancel *)
 Definition ex_g := mkCfg 3760 336 40.
